@@ -226,6 +226,10 @@ func replaceIfNaturalLanguageValues(old, new NaturalLanguageValues) NaturalLangu
 }
 
 func replaceIfSource(to, from Source) Source {
+	if len(from.MediaType) == 0 && from.Content == nil {
+		// nothing to replace with
+		return to
+	}
 	if from.MediaType != to.MediaType {
 		return from
 	}
